@@ -914,6 +914,93 @@ def check_undeclared_children(with_initial):
     return []
 
 
+# ---- an update that is due in the batch in which its process is removed ------------------------------------------------------
+class CellReaper(Process):
+    defaults = {'timestep': 1.0, 'at': 3, 'key': 'c'}
+
+    def __init__(self, parameters=None):
+        super().__init__(parameters)
+        self.k = 0
+
+    def ports_schema(self):
+        return {'cells': {'*': {}}}
+
+    def next_update(self, timestep, states):
+        self.k += 1
+        if self.k == self.parameters['at']:
+            return {'cells': {'_delete': [self.parameters['key']]}}
+        return {}
+
+
+class Secretor(Process):
+    defaults = {'timestep': 1.0}
+
+    def ports_schema(self):
+        return {'medium': {'secreted': {'_default': 0, '_emit': True}}}
+
+    def next_update(self, timestep, states):
+        return {'medium': {'secreted': 1}}
+
+
+def check_reaper_sibling(how):
+    """a cell holds a process that removes the cell at t=3 and a sibling that adds 1 per tick to a variable OUTSIDE the cell: the
+    sibling's update for [2, 3] is due in the same batch and is applied, whichever of the two is listed first (C01: every returned
+    update is applied once at the end of its interval; C04: the listing order is moot)"""
+    out = {}
+    for order in (('secretor', 'reaper'), ('reaper', 'secretor')):
+        procs = {'secretor': Secretor(), 'reaper': CellReaper({'at': 3})}
+        wiring = {'secretor': {'medium': ('..', '..', 'medium')}, 'reaper': {'cells': ('..',)}}
+        try:
+            eng = Engine(processes={'cells': {'c': {k: procs[k] for k in order}}},
+                         topology={'cells': {'c': {k: wiring[k] for k in order}}}, display_info=False, emitter='null')
+            (eng.update(5) if how == 'update' else [eng.run_for(1.0) for _ in range(5)])
+            out[order] = (eng.state.get_value()['medium']['secreted'], sorted((eng.state.get_value().get('cells') or {})))
+        except Exception as e:
+            return ['listing %s raised %s: %s' % (order, type(e).__name__, str(e)[:160])]
+    fails = []
+    for order, (sec, cells) in out.items():
+        if sec != 3 or cells:
+            fails.append('cell listed %s: medium/secreted is %r after the cell was removed at t=3 (three updates of +1 were due by then), '
+                         'cells left %s' % (order, sec, cells))
+    return fails
+
+
+# ---- a port whose variables are split over stores by a dict sub-topology that does not mention all of them ---------------------
+class Splitter(Process):
+    defaults = {'timestep': 1.0}
+
+    def __init__(self, parameters=None):
+        super().__init__(parameters)
+        self.seen = []
+
+    def ports_schema(self):
+        return {'counts': {'shared': {'_default': 0, '_emit': True}, 'local': {'_default': 0, '_emit': True}}}
+
+    def next_update(self, timestep, states):
+        self.seen.append(dict(states['counts']))
+        return {'counts': {'shared': 1, 'local': 10}}
+
+
+SPLIT_TOPOLOGIES = [{'counts': {'shared': ('..', 'environment', 'shared')}},
+                    {'counts': {'shared': ('..', 'environment', 'shared'), 'local': ('mine',)}},
+                    {'counts': {'_path': ('pool',), 'shared': ('..', '..', 'environment', 'shared')}}]
+
+
+def check_split_port(topology):
+    """one variable of a port is wired elsewhere by a dict sub-topology (with or without `_path`), the others are not mentioned:
+    the process reads every variable of the port where its updates to it land -- after n ticks it reads n and 10 n"""
+    sp = Splitter()
+    try:
+        eng = Engine(processes={'cell': {'p': sp}}, topology={'cell': {'p': copy.deepcopy(topology)}}, display_info=False, emitter='null')
+        eng.update(4)
+    except Exception as e:
+        return ['split port %r raised %s: %s' % (topology, type(e).__name__, str(e)[:160])]
+    want = [{'shared': k, 'local': 10 * k} for k in range(4)]
+    if sp.seen != want:
+        return ['port wired %r: the process read %r at its four calls; its own updates (+1, +10 per tick) give %r' % (topology, sp.seen, want)]
+    return []
+
+
 class Env(Process):
     defaults = {'timestep': 1.0}
 
@@ -1112,7 +1199,7 @@ def main():
     if a.replay:
         rec = json.load(open(a.replay))
         h = rec['scenario']
-        fails = check_undeclared_children(h['with_initial']) if rec.get('kind') == 'undeclared' else check_replace_in_place(h) if rec.get('kind') == 'replace' else check_inflight_views(h) if rec.get('kind') == 'inflight' else check_store_reissue(h) if rec.get('kind') == 'storereissue' else check_generate_subschema(h['how']) if rec.get('kind') == 'subschema' else check_store_entry_views() if rec.get('kind') == 'storeentry' else check_reissue(h) if rec.get('kind') == 'reissue' else check_cargo_move(h['target'], h['cargo']) if rec.get('kind') == 'cargo' else (check_moved_views(h) if rec.get('kind') == 'moved' else check_history(h, a.prop))
+        fails = check_split_port(h['topology']) if rec.get('kind') == 'split' else check_reaper_sibling(h['how']) if rec.get('kind') == 'reaper' else check_undeclared_children(h['with_initial']) if rec.get('kind') == 'undeclared' else check_replace_in_place(h) if rec.get('kind') == 'replace' else check_inflight_views(h) if rec.get('kind') == 'inflight' else check_store_reissue(h) if rec.get('kind') == 'storereissue' else check_generate_subschema(h['how']) if rec.get('kind') == 'subschema' else check_store_entry_views() if rec.get('kind') == 'storeentry' else check_reissue(h) if rec.get('kind') == 'reissue' else check_cargo_move(h['target'], h['cargo']) if rec.get('kind') == 'cargo' else (check_moved_views(h) if rec.get('kind') == 'moved' else check_history(h, a.prop))
         L.emit_result({'status': 'reproduced' if fails else 'not-reproduced', 'failed': fails})
         return
     n = {'quick': 150, 'thorough': 5000}[a.tier]
@@ -1134,14 +1221,34 @@ def main():
             failures.append({'id': '%s.bounded.history#%d: %s' % (a.prop, i, fails[0][:260]), 'replay': rp})
             if len(failures) >= 3:
                 break
-    if a.prop in ('C07', 'C04') and len(failures) < 3:
+    if a.prop in ('C07', 'C04', 'C06') and len(failures) < 3:
         evaluations += 1
         fails = check_store_entry_views()
         distinct.add('store-entry-views')
         if fails:
             rp = L.write_replay(a.out, a.prop, 'storeentry', {'store_entry': True}, fails, kind='storeentry', extra={'driver': 'bounded.struct'})
             failures.append({'id': '%s.bounded.store-entry: %s' % (a.prop, fails[0][:260]), 'replay': rp})
-    if a.prop in ('C02', 'C01', 'C10'):
+    if a.prop in ('C01', 'C06'):
+        for ti, topo_ in enumerate(SPLIT_TOPOLOGIES):
+            if len(failures) >= 3:
+                break
+            evaluations += 1
+            fails = check_split_port(topo_)
+            distinct.add('split-%d' % ti)
+            if fails:
+                rp = L.write_replay(a.out, a.prop, 'split%d' % ti, {'topology': topo_}, fails, kind='split', extra={'driver': 'bounded.struct'})
+                failures.append({'id': '%s.bounded.split-port#%d: %s' % (a.prop, ti, fails[0][:260]), 'replay': rp})
+    if a.prop in ('C01', 'C04'):
+        for how in ('update', 'run_for'):
+            if len(failures) >= 3:
+                break
+            evaluations += 1
+            fails = check_reaper_sibling(how)
+            distinct.add('reaper-' + how)
+            if fails:
+                rp = L.write_replay(a.out, a.prop, 'reaper-' + how, {'how': how}, fails, kind='reaper', extra={'driver': 'bounded.struct'})
+                failures.append({'id': '%s.bounded.reaper[%s]: %s' % (a.prop, how, fails[0][:260]), 'replay': rp})
+    if a.prop in ('C02', 'C01', 'C10', 'C09'):
         for ci, case in enumerate(REPLACE_CASES):
             if len(failures) >= 3:
                 break
@@ -1181,7 +1288,7 @@ def main():
             if fails:
                 rp = L.write_replay(a.out, a.prop, 'moved%d' % mi, script, fails, kind='moved', extra={'driver': 'bounded.struct'})
                 failures.append({'id': '%s.bounded.moved#%d: %s' % (a.prop, mi, fails[0][:260]), 'replay': rp})
-    if a.prop == 'C09':
+    if a.prop in ('C09', 'C07'):
         for how in ('_generate', '_add'):
             if len(failures) >= 3:
                 break
